@@ -4,7 +4,7 @@
 #define VP_TA 2      /* entries per template */
 enum vp_in_idx { I_hashNull, I_hashInit_ok, I_gen_rv, I_phNullA, I_phNullB, I_tNullA, I_tNullB, I_countA, I_countB, I_other_mech, I_slotNull, I_algoNull, I_minsz, I_maxsz, I_infoNull, VP_IN_N };
 enum vp_out_idx { O_gethash_n, O_gethash_kind, O_hashinit_n, O_recycle_n, O_setdigest_n, O_sethash_n, O_sethash_kind,
-                  O_gen_n, O_gen_kind, O_gen_tokA, O_gen_privA, O_gen_tokB, O_gen_privB, O_gen_hsess, O_gen_cntA, O_gen_cntB, O_gen_tA_ok, O_gen_tB_ok, O_getalgo_n, O_recalgo_n, O_info_min, O_info_max, O_info_flags, VP_OUT_N };
+                  O_gen_n, O_gen_kind, O_gen_tokA, O_gen_privA, O_gen_tokB, O_gen_privB, O_gen_hsess, O_gen_cntA, O_gen_cntB, O_gen_tA_ok, O_gen_tB_ok, O_getalgo_n, O_recalgo_n, O_info_min, O_info_max, O_info_flags, O_der_n, O_der_kind, O_der_keytype, O_der_tok, O_der_priv, O_der_hbase, O_der_hsess, O_der_cnt, O_der_mech, VP_OUT_N };
 VP_C_BEGIN
 extern CK_ULONG vp_in[VP_IN_N];
 extern CK_ULONG vp_in_ta[VP_TA * 3];      /* template A: type, ulValueLen, value (8 bytes) */
@@ -16,5 +16,6 @@ VP_C_END
 #define TA(i, f) vp_in_ta[(i) * 3 + (f)]
 #define TB(i, f) vp_in_tb[(i) * 3 + (f)]
 /* generator kinds recorded by the environment's generate* definitions */
+enum vp_der { D_NONE, D_DH, D_ECDH, D_EDDSA, D_SYM };
 enum vp_gen { G_NONE, G_DSAPARAM, G_DHPARAM, G_DES, G_DES2, G_DES3, G_AES, G_GENERIC, G_RSA, G_DSA, G_DH, G_EC, G_ED, G_GOST };
 #endif
